@@ -762,6 +762,320 @@ theorem group_marked_logged {σ : St} (op : Op) (g : Group) (hg : g ∈ σ.cat) 
     simp only [OG.C14.step] at hgone
     exact (same _ (by rw [completeAll_cat]) hgone).elim
 
+/-! ### the run decides with the duration its refresh obtained -/
+
+/-- `DBPTInfo.shards` is a map: one shard object per id. -/
+def EngUniq (σ : St) : Prop := ∀ s ∈ σ.eng, ∀ s' ∈ σ.eng, s.sid = s'.sid → s = s'
+
+theorem EngUniq.of_sub {σ σ' : St} (h : EngUniq σ) (hs : ∀ s ∈ σ'.eng, s ∈ σ.eng) : EngUniq σ' :=
+  fun s hs1 s' hs2 he => h s (hs s hs1) s' (hs s' hs2) he
+
+theorem EngUniq.of_map {σ σ' : St} (h : EngUniq σ) (f : EShard → EShard) (hf : ∀ s, (f s).sid = s.sid)
+    (he : σ'.eng = σ.eng.map f) : EngUniq σ' := by
+  intro s hs s' hs' hsid
+  rw [he] at hs hs'
+  obtain ⟨a, ha, rfl⟩ := List.mem_map.mp hs
+  obtain ⟨b, hb, rfl⟩ := List.mem_map.mp hs'
+  rw [hf, hf] at hsid
+  rw [h a ha b hb hsid]
+
+theorem EngUniq.step {σ : St} (h : EngUniq σ) (op : Op) : EngUniq (step σ op) := by
+  cases op with
+  | tick dt => simp only [OG.C14.step]; split <;> exact h
+  | alter d => exact h
+  | load sid =>
+    simp only [OG.C14.step, loadShard]
+    split
+    · exact h
+    · rename_i hno
+      split
+      · intro s hs s' hs' hsid
+        simp only at hs hs'
+        have hnot : ∀ x ∈ σ.eng, x.sid ≠ sid := by
+          intro x hx hxs
+          apply hno
+          exact List.any_eq_true.mpr ⟨x, hx, by simpa using hxs⟩
+        rcases List.mem_append.mp hs with hs | hs <;> rcases List.mem_append.mp hs' with hs' | hs'
+        · exact h s hs s' hs' hsid
+        · simp only [List.mem_singleton] at hs'; subst hs'
+          exact absurd hsid (hnot s hs)
+        · simp only [List.mem_singleton] at hs; subst hs
+          exact absurd hsid.symm (hnot s' hs')
+        · simp only [List.mem_singleton] at hs hs'; rw [hs, hs']
+      · exact h
+  | close sid =>
+    exact h.of_map (fun s => if s.sid == sid then { s with idx := false } else s)
+      (fun s => by split <;> rfl) rfl
+  | refresh ok =>
+    simp only [OG.C14.step]
+    split
+    · split
+      · exact h.of_map (updShard (durInfos σ.cat σ.metaDur)) (updShard_sid _) rfl
+      · exact h
+    · exact h
+  | collect => simp only [OG.C14.step]; split <;> exact h
+  | proc o =>
+    simp only [OG.C14.step]
+    split
+    · exact h.of_sub (fun s hs => mem_delEng hs)
+    · exact h
+  | complete =>
+    simp only [OG.C14.step]
+    exact h.of_sub (completeAll_eng_sub _ _)
+
+/-- the catalogue lists shard `sid` for this store. -/
+def Listed (cat : List Group) (sid : Nat) : Prop :=
+  ∃ g ∈ cat, ∃ c ∈ g.shards, c.mine = true ∧ c.sid = sid
+
+theorem listed_iff {cat : List Group} {sid : Nat} (d : Int) :
+    Listed cat sid ↔ ∃ i ∈ durInfos cat d, i.sid = sid := by
+  constructor
+  · rintro ⟨g, hg, c, hc, hm, rfl⟩
+    exact ⟨⟨c.sid, g.gid, g.endT, d⟩, mem_durInfos.mpr ⟨g, hg, c, hc, hm, rfl⟩, rfl⟩
+  · rintro ⟨i, hi, rfl⟩
+    obtain ⟨g, hg, c, hc, hm, rfl⟩ := mem_durInfos.mp hi
+    exact ⟨g, hg, c, hc, hm, rfl⟩
+
+theorem durInfos_dur {cat : List Group} {d : Int} {i : DurInfo} (h : i ∈ durInfos cat d) : i.dur = d := by
+  obtain ⟨g, _, c, _, _, rfl⟩ := mem_durInfos.mp h; rfl
+
+/-- after a successful refresh, whatever `ExpiredShards` reports about a shard the catalogue
+lists was decided with the duration that refresh obtained. -/
+theorem fresh_after_refresh {σ : St} (hu : EngUniq σ) (now : Int) {q : QItem}
+    (hq : q ∈ expiredShards now (refreshOk σ).eng (refreshOk σ).nilMap) (hl : Listed σ.cat q.sid) :
+    q.dUsed = σ.metaDur := by
+  obtain ⟨i0, hi0, hi0s⟩ := (listed_iff σ.metaDur).mp hl
+  unfold expiredShards at hq
+  simp only [refreshOk] at hq
+  rcases List.mem_append.mp hq with hq | hq
+  · obtain ⟨s', hs', hnil, _, rfl⟩ := mem_expiredLoaded.mp hq
+    obtain ⟨s, hs, rfl⟩ := List.mem_map.mp hs'
+    simp only at hi0s ⊢
+    rw [updShard_sid] at hi0s hnil
+    by_cases hidx : s.idx = true
+    · unfold updShard
+      rw [if_pos hidx]
+      split
+      · rename_i i hf
+        exact durInfos_dur (List.mem_of_find?_eq_some hf)
+      · rename_i hf
+        have := List.find?_eq_none.mp hf i0 hi0
+        simp [hi0s] at this
+    · exfalso
+      have hin : i0 ∈ nilInfos σ.eng (durInfos σ.cat σ.metaDur) := by
+        unfold nilInfos
+        refine List.mem_filter.mpr ⟨hi0, ?_⟩
+        simp only [Bool.not_eq_true', List.any_eq_false, Bool.and_eq_true, beq_iff_eq, not_and]
+        intro x hx hxs
+        have : x = s := hu x hx s hs (hxs.trans hi0s)
+        rw [this]; exact hidx
+      have := List.any_eq_false.mp hnil i0 hin
+      simp [hi0s] at this
+  · obtain ⟨i, hi, _, _, rfl⟩ := mem_expiredNil.mp hq
+    exact durInfos_dur (List.mem_filter.mp hi).1
+
+/-! ### the loop of one run, as a fold over the reported shards -/
+
+def procQ (oc : Nat → Outcome) : List QItem → St → St
+  | [], σ => σ
+  | q :: rest, σ => procQ oc rest (procItem (oc q.sid) q σ)
+
+theorem steps_append (σ : St) (a b : List Op) : steps σ (a ++ b) = steps (steps σ a) b := by
+  unfold steps; exact List.foldl_append ..
+
+/-- the part of the state the loop reads and writes. -/
+def Core (σ : St) : Int × List Group × List EShard × List Nat × List Nat × List Ev :=
+  (σ.clock, σ.cat, σ.eng, σ.disk, σ.pending, σ.log)
+
+theorem procItem_core (o : Outcome) (q : QItem) {σ σ' : St} (h : Core σ = Core σ') :
+    Core (procItem o q σ) = Core (procItem o q σ') := by
+  simp only [Core, Prod.mk.injEq] at h
+  obtain ⟨h1, h2, h3, h4, h5, h6⟩ := h
+  simp only [Core, procItem, h1, h2, h3, h4, h5, h6]
+
+theorem procQ_core (oc : Nat → Outcome) (l : List QItem) {σ σ' : St} (h : Core σ = Core σ') :
+    Core (procQ oc l σ) = Core (procQ oc l σ') := by
+  induction l generalizing σ σ' with
+  | nil => exact h
+  | cons q r ih => exact ih (procItem_core _ _ h)
+
+/-- the `proc` steps of a run are exactly `procQ` over the reported list. -/
+theorem steps_procs (oc : Nat → Outcome) : ∀ (Q : List QItem) (σ : St), σ.queue = Q →
+    (Q ≠ [] → σ.phase = .processing) →
+    Core (steps σ (Q.map fun q => .proc (oc q.sid))) = Core (procQ oc Q σ) := by
+  intro Q
+  induction Q with
+  | nil => intro σ _ _; rfl
+  | cons q rest ih =>
+    intro σ hq hph
+    have hph := hph (by simp)
+    simp only [List.map_cons, steps, List.foldl_cons, procQ]
+    have hstep : step σ (.proc (oc q.sid)) =
+        { procItem (oc q.sid) q σ with queue := rest, phase := if rest.isEmpty then .idle else .processing } := by
+      simp only [step, hph, hq]
+    rw [hstep]
+    have := ih { procItem (oc q.sid) q σ with queue := rest, phase := if rest.isEmpty then .idle else .processing }
+      rfl (by intro hne; cases rest with
+        | nil => exact absurd rfl hne
+        | cons _ _ => rfl)
+    simp only [steps] at this
+    rw [this]
+    exact procQ_core oc rest rfl
+
+/-! ### pruning marks exactly the shard it is asked to (groups sorted by shard id) -/
+
+/-- static shape of the catalogue: every group has shards, ids strictly ascending (they are
+allocated consecutively and appended). -/
+def CatStatic (cat : List Group) : Prop :=
+  ∀ g ∈ cat, g.shards ≠ [] ∧ g.sids.Pairwise (· < ·)
+
+theorem CatStatic.of_skel {cat cat' : List Group} (h : CatStatic cat)
+    (hk : ∀ g' ∈ cat', ∃ g ∈ cat, Skel g' g) : CatStatic cat' := by
+  intro g' hg'
+  obtain ⟨g, hg, hs⟩ := hk g' hg'
+  obtain ⟨h1, h2⟩ := h g hg
+  have hsids : g'.sids = g.sids := hs.2.2.2
+  refine ⟨?_, hsids ▸ h2⟩
+  intro he
+  apply h1
+  have : g.sids = [] := by rw [← hsids]; simp [Group.sids, he]
+  simpa [Group.sids] using this
+
+theorem mem_markFirstGE {id : Nat} {l : List CShard} {c' : CShard} (h : c' ∈ markFirstGE id l) :
+    ∃ c ∈ l, c'.sid = c.sid ∧ c'.mine = c.mine ∧ (c.marked = true → c'.marked = true) := by
+  induction l with
+  | nil => simp [markFirstGE] at h
+  | cons a r ih =>
+    simp only [markFirstGE] at h
+    split at h
+    · rcases List.mem_cons.mp h with rfl | h
+      · exact ⟨a, List.mem_cons_self, rfl, rfl, fun _ => rfl⟩
+      · exact ⟨c', List.mem_cons_of_mem _ h, rfl, rfl, id⟩
+    · rcases List.mem_cons.mp h with rfl | h
+      · exact ⟨c', List.mem_cons_self, rfl, rfl, id⟩
+      · obtain ⟨c, hc, hh⟩ := ih h
+        exact ⟨c, List.mem_cons_of_mem _ hc, hh⟩
+
+theorem markFirstGE_marks {id : Nat} {l : List CShard} (hs : (l.map (·.sid)).Pairwise (· < ·)) :
+    ∀ c' ∈ markFirstGE id l, c'.sid = id → c'.marked = true := by
+  induction l with
+  | nil => intro c' h; simp [markFirstGE] at h
+  | cons a r ih =>
+    intro c' h hid
+    simp only [List.map_cons, List.pairwise_cons] at hs
+    simp only [markFirstGE] at h
+    split at h
+    · rename_i hle
+      rcases List.mem_cons.mp h with rfl | h
+      · rfl
+      · have := hs.1 c'.sid (List.mem_map.mpr ⟨c', h, rfl⟩)
+        omega
+    · rename_i hle
+      rcases List.mem_cons.mp h with rfl | h
+      · omega
+      · exact ih hs.2 c' h hid
+
+theorem head_le {l : List CShard} {f x : CShard} (hs : (l.map (·.sid)).Pairwise (· < ·))
+    (hf : l.head? = some f) (hx : x ∈ l) : f.sid ≤ x.sid := by
+  cases l with
+  | nil => simp at hf
+  | cons a r =>
+    simp only [List.head?_cons, Option.some.injEq] at hf
+    subst hf
+    simp only [List.map_cons, List.pairwise_cons] at hs
+    rcases List.mem_cons.mp hx with rfl | hx
+    · exact Nat.le_refl _
+    · exact Nat.le_of_lt (hs.1 x.sid (List.mem_map.mpr ⟨x, hx, rfl⟩))
+
+theorem le_last {l : List CShard} {z x : CShard} (hs : (l.map (·.sid)).Pairwise (· < ·))
+    (hz : l.getLast? = some z) (hx : x ∈ l) : x.sid ≤ z.sid := by
+  induction l with
+  | nil => simp at hx
+  | cons a r ih =>
+    simp only [List.map_cons, List.pairwise_cons] at hs
+    cases r with
+    | nil =>
+      simp only [List.getLast?_singleton, Option.some.injEq] at hz
+      subst hz
+      simp only [List.mem_singleton] at hx
+      subst hx; exact Nat.le_refl _
+    | cons b r' =>
+      rw [List.getLast?_cons_cons] at hz
+      have hzm : z ∈ b :: r' := List.mem_of_getLast? hz
+      rcases List.mem_cons.mp hx with rfl | hx
+      · exact Nat.le_of_lt (hs.1 z.sid (List.mem_map.mpr ⟨z, hzm, rfl⟩))
+      · exact ih hs.2 hz hx
+
+theorem pruneGroup_marks (id : Nat) (g : Group) (hs : g.sids.Pairwise (· < ·)) :
+    ∀ c ∈ (pruneGroup id g).shards, c.sid = id → c.marked = true := by
+  intro c hc hid
+  unfold pruneGroup at hc
+  split at hc
+  · rename_i f l hf hl
+    split at hc
+    · exact markFirstGE_marks hs c hc hid
+    · rename_i hguard
+      exfalso; apply hguard
+      have h1 := head_le hs hf hc
+      have h2 := le_last hs hl hc
+      simp only [Bool.and_eq_true, decide_eq_true_eq]
+      omega
+  · rename_i hno
+    cases hsh : g.shards with
+    | nil => rw [hsh] at hc; simp at hc
+    | cons a r =>
+      exfalso
+      have hne : g.shards ≠ [] := by rw [hsh]; simp
+      exact hno a (g.shards.getLast hne) (by rw [hsh]; rfl) (List.getLast?_eq_some_getLast hne)
+
+theorem mem_pruneGroup_shards {id : Nat} {g : Group} {c' : CShard} (h : c' ∈ (pruneGroup id g).shards) :
+    ∃ c ∈ g.shards, c'.sid = c.sid ∧ c'.mine = c.mine ∧ (c.marked = true → c'.marked = true) := by
+  unfold pruneGroup at h
+  split at h
+  · split at h
+    · exact mem_markFirstGE h
+    · exact ⟨c', h, rfl, rfl, id⟩
+  · exact ⟨c', h, rfl, rfl, id⟩
+
+/-- marks are only ever set. -/
+theorem procItem_marks {o : Outcome} {q : QItem} {σ : St} {g' : Group} {c' : CShard}
+    (hg' : g' ∈ (procItem o q σ).cat) (hc' : c' ∈ g'.shards) :
+    ∃ g ∈ σ.cat, ∃ c ∈ g.shards, c'.sid = c.sid ∧ c'.mine = c.mine ∧ (c.marked = true → c'.marked = true) := by
+  simp only [procItem] at hg'
+  have h2 : ∃ g1 ∈ markStage o.markOk q.gid σ.cat, ∃ c ∈ g1.shards, c'.sid = c.sid ∧ c'.mine = c.mine ∧
+      (c.marked = true → c'.marked = true) := by
+    unfold pruneStage at hg'
+    split at hg'
+    · unfold pruneCat at hg'
+      obtain ⟨hm, _⟩ := List.mem_filter.mp hg'
+      obtain ⟨g1, hg1, rfl⟩ := List.mem_map.mp hm
+      obtain ⟨c, hc, hh⟩ := mem_pruneGroup_shards hc'
+      exact ⟨g1, hg1, c, hc, hh⟩
+    · exact ⟨g', hg', c', hc', rfl, rfl, id⟩
+  obtain ⟨g1, hg1, c, hc, hh⟩ := h2
+  obtain ⟨g, hg, _, hsh, _⟩ := mem_markStage hg1
+  exact ⟨g, hg, c, hsh ▸ hc, hh⟩
+
+/-- with the prune call succeeding on a well-shaped catalogue, every catalogue entry of the
+shard is marked afterwards. -/
+theorem procItem_prunes {o : Outcome} {q : QItem} {σ : St} (hst : CatStatic σ.cat) (hp : o.pruneOk = true) :
+    ∀ g' ∈ (procItem o q σ).cat, ∀ c ∈ g'.shards, c.sid = q.sid → c.marked = true := by
+  intro g' hg' c hc hid
+  simp only [procItem] at hg'
+  have hst1 : CatStatic (markStage o.markOk q.gid σ.cat) :=
+    hst.of_skel (fun g1 hg1 => by obtain ⟨g, hg, hs, _⟩ := mem_markStage hg1; exact ⟨g, hg, hs⟩)
+  have hnp : pruneWouldPanic (markStage o.markOk q.gid σ.cat) = false := by
+    unfold pruneWouldPanic
+    simp only [List.any_eq_false, List.isEmpty_iff]
+    intro g1 hg1; exact (hst1 g1 hg1).1
+  unfold pruneStage at hg'
+  rw [hp, hnp] at hg'
+  simp only [Bool.not_false, Bool.and_self, ↓reduceIte] at hg'
+  unfold pruneCat at hg'
+  obtain ⟨hm, _⟩ := List.mem_filter.mp hg'
+  obtain ⟨g1, hg1, rfl⟩ := List.mem_map.mp hm
+  exact pruneGroup_marks q.sid g1 (hst1 g1 hg1).2 c hc hid
+
 theorem WF.steps {σ : St} (h : WF σ) (ops : List Op) : WF (steps σ ops) := by
   induction ops generalizing σ with
   | nil => exact h
